@@ -12,7 +12,7 @@ Sections
   measures    cc / cr / crl1 (rational formulas, model and Fraction reference), mi / nmi / slr (float reference).
   helpers     clamp, smallest_bounding_box, subgrid_affine / _slicer.
   optimize    optimisation result not worse than the start on tiny problems.
-  rand-fault  (subprocess) _rand_interpolation when no neighbour has positive weight.
+  rand-fault  (subprocess) regression: _rand_interpolation when no neighbour has positive weight adds nothing.
 """
 import ctypes
 import json
@@ -123,8 +123,7 @@ def ref_hist(Iflat, Jp, coords, mode, cI, cJ, draws=None):
                         break
                 info["mass_expected"] += 1
             else:
-                info["fault"] = True     # the C code has no guard here (finding): do not run in-process
-                di += 1
+                info["no_positive_weight"] = info.get("no_positive_weight", 0) + 1   # early return, no draw consumed
     return H, info
 
 
@@ -332,10 +331,6 @@ def kernel(ck):
                   "J_padded": Jp.tolist(), "A": [[str(x) for x in r] for r in A], "t": [str(x) for x in t],
                   "clampI": cI, "clampJ": cJ, "seed": seed if mode == "rand" else None,
                   "call": "_joint_histogram(H, I.flat, J_padded, coords, interp)"}
-        if info["fault"]:
-            # rand with a voxel that has no positive-weight neighbour: unguarded in C (finding, see rand_fault)
-            ck.count(("kernel-skip", n), nontrivial=False, bucket="kernel:rand-fault-skipped")
-            continue
         interp = {"pv": 0, "tri": 1, "rand": -seed}[mode]
         cases.append({"I": I, "Jp": Jp, "coords": coords, "cI": cI, "cJ": cJ, "interp": interp, "strided": strided})
         pending.append((n, mode, kind, replay, Hdef, info, Iflat, cflat, Jp, cI, cJ, draws))
@@ -418,8 +413,9 @@ print("@@" + json.dumps(out))
 
 
 def rand_fault(ck):
-    """_rand_interpolation has no `sumW > 0` guard: a voxel inside the grid whose neighbours are all masked
-    (or only have weight 0) still adds one unit, at a stale slot of the Jnn buffer."""
+    """Regression oracle for the defect fixed by d23fc29 (_rand_interpolation had no `sumW > 0` guard: a voxel
+    inside the grid whose neighbours are all masked, or only have weight 0, added one unit at a stale slot of
+    the Jnn buffer).  Runs in a subprocess because the defect can crash the interpreter."""
     env = dict(os.environ)
     r = subprocess.run(["timeout", "120", sys.executable, "-c", FAULT_SCRIPT % str(VERIF)], capture_output=True, text=True, env=env)
     ck.count(("rand-fault",), nontrivial=True, bucket="rand-fault:subprocess")
